@@ -288,10 +288,17 @@ func (m *C07) After(w *world.World, a *world.Action, r *world.StepResult) *Viola
 		if ds.SlashFraction.IsZero() && !burned.IsZero() {
 			return violf(P, "slash-amount", "%s: %s lost %s tokens with a zero slash fraction", act.Kind, name, burned)
 		}
-		if len(live) == 0 {
+		if redDst[before.Operator] {
+			// this culprit is also the destination of a redelegation from another culprit of the same evidence:
+			// slashing that one burns redelegated stake here too, so only the lower bound is known
+			w.Label("culprit-is-redelegation-destination")
+			if ds.SlashFraction.IsPositive() && len(live) == 0 && burned.LT(math.MinInt(slashAmount, before.Tokens)) {
+				return violf(P, "slash-amount", "%s: validator %s (power %d, tokens %s) lost %s tokens, want at least fraction %s of its power = %s", act.Kind, name, before.LastPower, before.Tokens, burned, ds.SlashFraction, slashAmount)
+			}
+		} else if len(live) == 0 {
 			want := math.MinInt(slashAmount, before.Tokens)
 			if !burned.Equal(want) {
-				return violf(P, "slash-amount", "%s: validator %s (power %d, tokens %s) lost %s tokens, want fraction %s of its power = %s", act.Kind, name, before.LastPower, before.Tokens, burned, ds.SlashFraction, want)
+				return violf(P, "slash-amount", "%s: validator %s (power %d, tokens %s) lost %s tokens, want fraction %s of its power = %s (unbonding entries %+v, redelegation entries %+v, block time %s)", act.Kind, name, before.LastPower, before.Tokens, burned, ds.SlashFraction, want, before.UBD, before.Red, T)
 			}
 		} else {
 			w.Label("slash-with-unbonding-stake")
